@@ -94,17 +94,15 @@ fn os_obs(s: &OS, inc: &mut Option<String>) -> (ValObs, Clk, Clk) {
 }
 
 fn os_template(role: u8, rng: &mut Rng) -> Cmd {
-    let m = if rng.chance(3, 4) { 0 } else { 1 };
+    let m = [0u64, 0, 0, 1, 1, 2][rng.below(6)];
     match role {
-        0 => {
-            if rng.chance(1, 5) {
-                Cmd::new("add_all", vec![m, 1 - m])
-            } else {
-                Cmd::new("add", vec![m])
-            }
-        }
-        1 => Cmd::new("rm", vec![m]).src(["contains", "iter", "read"][rng.below(3)]),
-        _ => Cmd::new("rm_all", vec![0, 1]).src("read"),
+        0 => match rng.below(6) {
+            0 => Cmd::new("add_all", vec![m, (m + 1) % 3]),
+            1 => Cmd::new("add_all", vec![0, 1, 2]),
+            _ => Cmd::new("add", vec![m]),
+        },
+        1 => Cmd::new("rm", vec![m]).src(["contains", "iter", "read", "read_ctx"][rng.below(4)]),
+        _ => Cmd::new("rm_all", vec![m, (m + 1) % 3]).src("read"),
     }
 }
 
